@@ -494,6 +494,31 @@ _collection_resolver = AbstractTypeResolver("""),
                     data = self._load_from_resource()
                     with self._suspend_sync:
                         self._update(data)""")]),
+    dict(id="c10-lock-created-after-unlocked-test", fires={"C10": "C10.e"},
+         edits=[(DT + "synced_collection.py", """            with self._cls_lock:
+                if self._lock_id not in self._locks:
+                    self._locks[self._lock_id] = RLock()""", """            if self._lock_id not in self._locks:
+                with self._cls_lock:
+                    self._locks[self._lock_id] = RLock()""")]),
+    dict(id="c11-validator-sees-only-exact-dict", fires={"C11": "C11.f"},
+         edits=[("validators.py", """        "MAPPING": lambda obj: isinstance(obj, Mapping),
+        "SEQUENCE": lambda obj: isinstance(obj, Sequence) and not isinstance(obj, str),
+    }
+)
+""", """        "MAPPING": lambda obj: isinstance(obj, dict),
+        "SEQUENCE": lambda obj: isinstance(obj, Sequence) and not isinstance(obj, str),
+    }
+)
+""")]),
+    dict(id="c09-extend-validates-only-when-not-suspended", fires={"C09": "C09.d"},
+         edits=[(DT + "synced_list.py", """        iterable_data = list(iterable)
+        self._validate(iterable_data)
+        with self._load_and_save, self._suspend_sync:
+            self._data.extend(""", """        iterable_data = list(iterable)
+        if not self._suspend_sync:
+            self._validate(iterable_data)
+        with self._load_and_save, self._suspend_sync:
+            self._data.extend(""")]),
     dict(id="c19-memoizes-lying-class", fires={"C19": "C19.e"},
          edits=[("utils.py", """            if getattr(obj, "__class__", obj_type) is obj_type and not issubclass(
                 obj_type, tuple(self.cache_blocklist)
